@@ -130,6 +130,24 @@ def run(run):
         CUR, chosen, children, score_terms, rb = desc
         lv = _leaves(chosen)
         bad = [t for t in lv if t not in children and t != CUR]
+        if bad and all(t == sym.NONE for t in bad) and len(score_terms) == 4:
+            # "no candidate yet" (None) as the initial best: reachable only if no score exceeds the initial -inf.  The containment
+            # score is a finite number (a sum of min(dot, 0) terms): evaluate the choice for all patterns of finite scores
+            import itertools as _it
+            from sa.teval import teval as _tev, UNKNOWN as _UNK
+            feasible = False
+            for pat in _it.product((0.0, -1e-16, -0.5), repeat=4):
+                envt = dict(zip(score_terms, pat))
+                envt[("attr", ("sym", "np"), "inf")] = float("inf")
+                envt[CUR] = "CUR"
+                for i_, c_ in enumerate(children):
+                    envt[c_] = "child%d" % i_
+                v = _tev(chosen, envt)
+                if v is None or v is _UNK:
+                    feasible = True
+                    break
+            if not feasible:
+                bad = []
         if not any(t in children for t in lv):
             run.violated("C12.R2", f, None, "the descent does not go through _div4(tile): results for increasing depth need not be nested (next tile is %s)" % show(chosen)[:100],
                          kind="no-div4")
